@@ -161,7 +161,9 @@ def check(ctx):
                     C.issue('fresh-agent-moved-by-own-limits', 'oracle', rp)
             C.case(key=('build', kind, na, nv, nd, tuple(lb), tuple(ub)), nontrivial=na > 1 and nv > 1, kind=f'build-{kind}')
         # ---- validation: typed errors
-        bad = [dict(n_agents=0), dict(n_agents=-2), dict(n_agents=1.5), dict(n_agents='3'), dict(n_variables=0),
+        bad = [dict(n_agents=np.float64(2.5)), dict(n_agents=np.float32(2.0)), dict(n_variables=np.float64(2.0)),
+               dict(n_iterations=np.float64(2.5)), dict(n_iterations=np.float64(3.0)),
+               dict(n_agents=0), dict(n_agents=-2), dict(n_agents=1.5), dict(n_agents='3'), dict(n_variables=0),
                dict(n_variables=2.0), dict(n_iterations=0), dict(n_iterations=-1), dict(n_iterations=None),
                dict(n_variables=2, lower_bound=[0], upper_bound=[1, 1]), dict(n_variables=2, lower_bound=[0, 0], upper_bound=[1]),
                dict(n_variables=1, lower_bound=[0, 0], upper_bound=[1, 1]), dict(n_variables=3, lower_bound=[0, 0, 0], upper_bound=[1, 1, 1, 1])]
@@ -184,7 +186,8 @@ def check(ctx):
                     ctor(**args)
                     C.issue('invalid-space-accepted', 'oracle', rp)
                 except (e.TypeError, e.ValueError, e.SizeError) as ex:
-                    want = e.SizeError if 'lower_bound' in kw else (e.ValueError if isinstance(list(kw.values())[0], int) else e.TypeError)
+                    v0 = list(kw.values())[0]
+                    want = e.SizeError if 'lower_bound' in kw else (e.ValueError if (isinstance(v0, int) and not isinstance(v0, bool)) else e.TypeError)
                     if not isinstance(ex, want):
                         C.issue('wrong-error-class', 'oracle', rp, got=type(ex).__name__, expected=want.__name__)
                 except Exception as ex:
